@@ -205,6 +205,46 @@ theorem no_protocol_refused (c : ListenCfg) (h : c.http1 = false ∧ c.http2 = f
     (validate c).isSome = true :=
   (refuses_to_start_iff c).2 (Or.inr (Or.inr (Or.inl h)))
 
+/-- **From the file to the authenticator**: a user name and a password written as TOML basic strings
+(any characters: quotes, backslashes, control characters, non-ASCII) are loaded as exactly that pair, and
+the registry then accepts exactly the token a client builds from the same two strings -/
+theorem file_to_registry (u p : List Char) (hu : u ≠ []) (hp : p ≠ []) :
+    loadClient (decodeLexeme (encodeBasic u)) (decodeLexeme (encodeBasic p)) = some ⟨u, p⟩ ∧
+    registryAccepts [⟨u, p⟩] (credToken u p) = true := by
+  refine ⟨?_, ?_⟩
+  · rw [decode_encode_basic, decode_encode_basic]
+    exact (load_ok_iff _ _ ⟨u, p⟩).2 ⟨rfl, rfl, hu, hp⟩
+  · exact (accepted_iff_listed _ _).2 ⟨⟨u, p⟩, by simp, rfl⟩
+
+/-- a configuration with a set address, a protocol, credentials (or a loopback address) and a sound
+reverse-proxy section (or none) starts -/
+theorem sound_configuration_starts (c : ListenCfg) (ha : c.addrUnspecified = false ∨ c.port ≠ 0)
+    (hp : c.http1 = true ∨ c.http2 = true ∨ c.quic = true) (hc : c.nClients ≠ 0 ∨ c.addrLoopback = true)
+    (hr : ∀ p m, c.reverseProxy = some (p, m) → reverseProxyValid p m = true) : validate c = none := by
+  cases hv : validate c with
+  | none => rfl
+  | some e =>
+    exfalso
+    have := (refuses_to_start_iff c).1 (by rw [hv]; rfl)
+    rcases this with ⟨h1, h2⟩ | ⟨p, m, hpm, hbad⟩ | ⟨h1, h2, h3⟩ | ⟨h1, h2⟩
+    · rcases ha with ha | ha
+      · rw [ha] at h1; cases h1
+      · exact ha h2
+    · have := hr p m hpm
+      simp only [reverseProxyValid, Bool.and_eq_true, bne_iff_ne, ne_eq, Bool.not_eq_true', List.isEmpty_eq_false_iff,
+        beq_iff_eq] at this
+      rcases hbad with hb | hb | hb
+      · exact this.1.1 hb
+      · exact this.1.2 hb
+      · exact hb this.2
+    · rcases hp with hp | hp | hp
+      · rw [hp] at h1; cases h1
+      · rw [hp] at h2; cases h2
+      · rw [hp] at h3; cases h3
+    · rcases hc with hc | hc
+      · exact hc h1
+      · rw [hc] at h2; cases h2
+
 end TT.Creds
 
 /-!
